@@ -4,7 +4,8 @@ package main
 //       Next/Select/Lookup, i.e. also for the (value, ok) tuples of comma-ok type assertions and
 //       receives. A mark of call result #k (k != 0) therefore never passes `extract #0` of such a
 //       tuple: `_, e := f(); s, ok := e.(string); sink(s)` loses the flow.
-// Native run prints the tainted string three times; `argot taint` reports only the `reported` line.
+// Native run prints the tainted string three times. At the pinned commit `argot taint` reported only the
+// middle flow; repaired by 327a23f — kept as a regression case: every `reported` line must be reported.
 
 func source2() (int, any)          { return 0, "tainted" }
 func source1() any                 { return "tainted" }
@@ -15,7 +16,7 @@ func main() {
 	_, e := source2()
 	s, ok := e.(string)
 	if ok {
-		sink(s) // missed (C08b)
+		sink(s) // reported (was missed: C08b, repaired by 327a23f)
 	}
 	e1 := source1()
 	s1, ok1 := e1.(string)
@@ -25,6 +26,6 @@ func main() {
 	_, c := sourceCh()
 	s2, ok2 := <-c
 	if ok2 {
-		sink(s2) // missed (C08b)
+		sink(s2) // reported (was missed: C08b, repaired by 327a23f)
 	}
 }
